@@ -423,7 +423,8 @@ class Parser(ExprParser):
         self.enter("nested_namespace")
         nested = [self.token.value]
         self.next()
-        while self.have("NAMESPACE"):
+        while self.token.typ == "NAMESPACE" and self.token.value == "::":
+            self.next()
             # make sure nested scope is a namespaceNode
             tok = self.mustbe("ID")
             name = tok.value
@@ -558,7 +559,8 @@ class Parser(ExprParser):
             node = self.enum_statement()
         elif self.token.typ == "STRUCT":
             node = self.struct_statement()
-        elif self.token.typ == "NAMESPACE":
+        elif self.token.typ == "NAMESPACE" and self.token.value == "namespace":
+            # The '::' token is also named NAMESPACE.
             node = self.namespace_statement()
         elif self.token.typ == "TEMPLATE":
             node = self.template_statement()
